@@ -2755,7 +2755,7 @@ func (e *c05Env) phaseStreamModel() {
 			if r.IntN(3) != 0 {
 				bs := make([]byte, ncalls)
 				for i := range bs {
-					bs[i] = "TTVSV"[r.IntN(5)]
+					bs[i] = "TTVSVPP"[r.IntN(7)]
 				}
 				script = string(bs)
 			}
@@ -2782,6 +2782,8 @@ func (e *c05Env) phaseStreamModel() {
 						if err == nil {
 							res = fmt.Sprintf("S:%d", dec.InputOffset())
 						}
+					case 'P':
+						res = fmt.Sprintf("K%d", dec.PeekKind()) // 0: an error (possibly the read fault) is cached
 					}
 					cl, off, _ := c05ErrClass(err)
 					switch {
@@ -2843,7 +2845,7 @@ func (e *c05Env) phaseStreamModel() {
 		}
 	}
 	c.HitN("corr:stream-lines", int64(len(cases)))
-	c.Note("phase S: %d runs of %d calls (ReadToken only, or random words over ReadToken/ReadValue/SkipValue) of the real Decoder over recorded reader events vs the streaming model, %d disagreements", len(cases), ncalls, bad)
+	c.Note("phase S: %d runs of %d calls (ReadToken only, or random words over ReadToken/ReadValue/SkipValue/PeekKind) of the real Decoder over recorded reader events vs the streaming model, %d disagreements", len(cases), ncalls, bad)
 }
 
 // c05Replay re-runs the single case recorded in a replay file written by Violate.
